@@ -14,7 +14,12 @@
                      regex does not match leave the Python local `condition` unassigned: UnboundLocalError
                      at the opener, silent reuse of the previous branch's condition at `<<elif`).
      fixed = true  : /repo + proposed_fixes/F11a-legacy-if-unclosed.diff (both sites raise SyntaxError).
-   `extract_*` (no suffix) are the fixed = true instances; `extract_*_cur` the fixed = false ones.
+   and a nesting cap `cap : option nat`:
+     cap = None      : no limit on block nesting (the interpreter's recursion limit, which is outside
+                       the model, is what stops a 1000-deep input: RecursionError, F11b)
+     cap = Some 100  : /repo + proposed_fixes/F11b-block-depth-limit.diff (SyntaxError beyond 100 levels)
+   `extract_*` (no suffix) are the (true, Some 100) instances = /repo with both diffs applied;
+   `extract_*_a` = F11a only; `extract_*_cur` = the unpatched code.
 
    Every partial Python operation is an explicit outcome (ParseBase.pres):
      lines[start_index]            -> PInternal IIndex when start >= len(lines)
@@ -288,7 +293,8 @@ Definition extract_python_block (lines : list string) (start : nat) : pres (stri
 (* shared pieces of the conditional and loop extractors                                         *)
 (* ------------------------------------------------------------------------------------------- *)
 Section WithLinefns.
-Variable fixed : bool.
+Variable fixed : bool.            (* F11a applied *)
+Variable cap : option nat.        (* F11b applied: Some MAX_BLOCK_DEPTH *)
 Variable lf : linefns.
 
 (* the flush used before directives/blocks/jumps/choices: every dedented line, newline after each,
@@ -648,26 +654,39 @@ Definition loop_body (lines : list string) (start : nat) : pres (token * nat) :=
 
 End Open.
 
-(* tying the knot: one unit of fuel per nested extractor call *)
-Fixpoint extract_conditional_block_f (n : nat) (lines : list string) (start : nat)
+(* tying the knot: one unit of fuel per nested extractor call.
+   `depth` is the Python keyword parameter `_depth` of proposed_fixes/F11b-block-depth-limit.diff
+   (0 for the calls of the main loop, + 1 at each nested call); with cap = None (the unpatched
+   code) it is carried and never looked at. *)
+Definition too_deep (depth : nat) : bool :=
+  match cap with Some m => m <=? depth | None => false end.
+
+Fixpoint extract_conditional_block_f (n : nat) (depth : nat) (lines : list string) (start : nat)
   : pres (token * nat) :=
   match n with
   | O => POutOfFuel
-  | S n' => cond_body (extract_conditional_block_f n') (extract_loop_block_f n') lines start
+  | S n' =>
+      if too_deep depth then PDiag (DSyntax "nesting-too-deep" start)
+      else cond_body (extract_conditional_block_f n' (S depth)) (extract_loop_block_f n' (S depth))
+                     lines start
   end
-with extract_loop_block_f (n : nat) (lines : list string) (start : nat) : pres (token * nat) :=
+with extract_loop_block_f (n : nat) (depth : nat) (lines : list string) (start : nat)
+  : pres (token * nat) :=
   match n with
   | O => POutOfFuel
-  | S n' => loop_body (extract_conditional_block_f n') (extract_loop_block_f n') lines start
+  | S n' =>
+      if too_deep depth then PDiag (DSyntax "nesting-too-deep" start)
+      else loop_body (extract_conditional_block_f n' (S depth)) (extract_loop_block_f n' (S depth))
+                     lines start
   end.
 
 Definition block_fuel (lines : list string) (start : nat) : nat := S (length lines - start).
 
 Definition extract_conditional_block_v (lines : list string) (start : nat) : pres (token * nat) :=
-  extract_conditional_block_f (block_fuel lines start) lines start.
+  extract_conditional_block_f (block_fuel lines start) 0 lines start.
 
 Definition extract_loop_block_v (lines : list string) (start : nat) : pres (token * nat) :=
-  extract_loop_block_f (block_fuel lines start) lines start.
+  extract_loop_block_f (block_fuel lines start) 0 lines start.
 
 (* ------------------------------------------------------------------------------------------- *)
 (* extract_join_choice_block                                                                    *)
@@ -725,8 +744,14 @@ Definition extract_join_choice_block (lines : list string) (start choice_indent 
 
 End WithLinefns.
 
-(* the two versions *)
-Definition extract_conditional_block := extract_conditional_block_v true.
-Definition extract_loop_block := extract_loop_block_v true.
-Definition extract_conditional_block_cur := extract_conditional_block_v false.
-Definition extract_loop_block_cur := extract_loop_block_v false.
+(* the versions *)
+Definition max_block_depth : nat := 100.
+(* /repo + F11a + F11b : what this file's unsuffixed names stand for *)
+Definition extract_conditional_block := extract_conditional_block_v true (Some max_block_depth).
+Definition extract_loop_block := extract_loop_block_v true (Some max_block_depth).
+(* /repo + F11a only *)
+Definition extract_conditional_block_a := extract_conditional_block_v true None.
+Definition extract_loop_block_a := extract_loop_block_v true None.
+(* /repo as of 45ce265 *)
+Definition extract_conditional_block_cur := extract_conditional_block_v false None.
+Definition extract_loop_block_cur := extract_loop_block_v false None.
